@@ -53,11 +53,13 @@ def strategy(draw):
         for r in recs:                      # a coarse FFT grid needs room for the kernels: windows of >= 128 samples
             r["n"] = max(r["n"], 128)
         spec["_nfft"] = max(r["n"] for r in recs)
+    if isinstance(spec["fft_n"], int) and spec["fft_n"] in (64, 256) and draw(gen.chance(6)):
+        # coincidence: the longest window has exactly the requested FFT length (then honoured as it is, like n=None)
+        recs[-1]["n"] = spec["fft_n"]
+        for r in recs:
+            r["n"] = min(r["n"], spec["fft_n"]) if spec["method"] != "diffuse_field" else spec["fft_n"]
     if isinstance(spec["fft_n"], int) and max(r["n"] for r in recs) == spec["fft_n"]:
-        recs[0]["n"] += 1                   # an explicit n equal to the record length is honoured as it is (no 2^15 minimum)
-        if spec["method"] == "diffuse_field":
-            for r in recs:
-                r["n"] = recs[0]["n"]
+        spec["_nfft"] = spec["fft_n"]
     nfft = spec["_nfft"]
     dts_used = [r["dt"] for r in recs]
     df_max, fnyq_min = 1.0 / (nfft * min(dts_used)), 0.5 / max(dts_used)
